@@ -772,7 +772,7 @@ def f1_expected_wrong() -> str:
 
 F2_EXPECTED_WRONG = "10/ok 0/"
 F2B_EXPECTED_WRONG = "0 6"                   # same root cause: deferred closure updates a named result
-F15_EXPECTED_WRONG = "closed closed a3"          # ok of `case v, ok := <-ch` is never assigned
+F111_EXPECTED_WRONG = "closed closed a3"          # ok of `case v, ok := <-ch` is never assigned
 
 
 # --------------------------------------------------------------------------- directives
